@@ -40,6 +40,7 @@ func NewServers() *Servers {
 	vrt.ResetContexts()
 	w := &Servers{S: vrt.New(), Deaf: map[uint64]bool{}, Durable: map[uint64]int{}, crashArmed: map[uint64]crashSpec{}}
 	w.S.Horizon = 20000000
+	w.S.CrashGrace = true // an armed crash strikes once the node's other threads have run as far as they can
 	w.S.OnDurable = func(t *vrt.Thread, site string, after bool) bool {
 		id := nodeOf(t.Name)
 		if !after {
